@@ -94,7 +94,7 @@ def run(tier, seed):
                 static_notes.append('%s: static scan: registered parameter(s) %s assigned inside member functions' % (cls, bad_static))
             cd = os.path.join(d, cls)
             os.makedirs(cd, exist_ok=True)
-            frame = ', '.join(unreg + ['ghost_msg', 'ghost_exit', 'ghost_nan'])
+            frame = ', '.join(unreg + list(decl.ints) + ['ghost_msg', 'ghost_exit', 'ghost_nan'])     # int/bool members cannot be registered (register_var takes a Scalar*)
             spec = ['/* GENERATED frame-only contracts for %s: assigns = the members its constructor does NOT register (%d), plus the ghosts */' % (cls, len(unreg))]
             for cb in sorted({n for f in funcs for (t, n, k) in f.args if k == 'funcptr'}):
                 spec.append('#ifndef VF_NATIVE\nSc __CPROVER_uninterpreted_%s(Sc);   /* caller-supplied callback: any function (rule K) */\n#endif' % cb)
@@ -151,7 +151,7 @@ def run(tier, seed):
         rep.undecide('extraction break: %s' % e)
         write_evidence('C10', tier, seed, 'proof', {'evaluations': 0, 'distinct_nontrivial': 0, 'explanation': 'extraction break: %s' % e}, TRUSTED, time.time() - t0, 0)
         return rep.finish()
-    tmo = 90 if tier == 'quick' else 600
+    tmo = 150 if tier == 'quick' else 600
 
     def work(j):
         kind, cls, f, hf, cd, repl, hasvec = j
@@ -351,7 +351,7 @@ def native_history(cls, d, seed, N):
     o = ['#include "native.h"', xtract.render_unit(cls, decl2, funcs, None, prelude='native.h')]
     o.append('static Sc rnd(void) { return (Sc)(4.0 * drand48() - 2.0); }')
     o.append('static Sc *regp[] = { %s };' % ', '.join('&' + m for m in rl))
-    o.append('static void rc_(void) { %s }' % ' '.join('%s = rnd();' % m for m in unreg))
+    o.append('static void rc_(void) { %s %s }' % (' '.join('%s = rnd();' % m for m in unreg), ' '.join('%s = (int)(lrand48() %% 2);' % m for m in decl.ints)))   # int/bool members are never registered: cache state as well
     o.append('static void dump(const char *w, int fi, int k, Sc nv, Sc x, Sc y, Sc r1, Sc r2) { printf("MISMATCH %%s %%d %%d %%.21Lg %%.21Lg %%.21Lg %%.21Lg %%.21Lg", w, fi, k, nv, x, y, r1, r2); for (int i = 0; i < %d; i++) printf(" %%.21Lg", *regp[i]); printf("\\n"); }' % len(rl))
     o.append('int main(int argc, char **argv) { srand48(atol(argv[1])); long N = atol(argv[2]); long bad = 0, n = 0;')
     o.append('  for (long it = 0; it < N; it++) { %s__init_var_0(); pi = PI = acosl(-1.0L);' % cls)
